@@ -1,6 +1,7 @@
 import Autog.Model.Phase5
 import Autog.Lemmas.BreakMergeChains
 import Autog.Properties.C05
+import Autog.Lemmas.Placement
 /-! # C06 — route geometry matches the routing style
 
     Theorems about the router formulas of the model (Autog/Model/Phase5.lean, compared with the real routers by `T:phase5`
@@ -10,8 +11,10 @@ import Autog.Properties.C05
       next sit on the same node centre) — for all coordinates, widths, heights and layer heights.
     * Straight: exactly two points. Polyline: `|ns|` points for a chain `ns`, one bend per inner node, at that helper node's
       centre x and at mid-height of its band (`C06_polyline_bends`, `C06_polyline_point_count`).
-    PARTIAL: that the chain `ns` produced by `mergeLongEdges` lists one helper node per intermediate band, and that bends
-    stay outside node rectangles (C04 + C03), is decided per run by the predicates; splines by predicate only. -/
+    * Bends and rectangles: in a separated layer (what C04 proves for the positioners) with non-negative widths the centre x of a
+      node is never strictly inside the horizontal extent of another node of the layer (`C06_bend_outside_rect`).
+    PARTIAL: that the chain `ns` produced by `mergeLongEdges` lists one helper node per intermediate band is decided per run by the
+    predicates; splines by predicate only. -/
 
 namespace Autog
 
@@ -170,5 +173,55 @@ theorem C06_chain_last_real : type_of% @BreakMergeChains.Linked.last_real := @Br
 example : AxisPar (orthoPoints
     { nodes := #[{ id := "a", x := 0, y := 0, w := 10, h := 4 }, { id := "V1", x := 30, y := 20, virt := true }, { id := "b", x := 7, y := 50, w := 6, h := 3 }] }
     10 6 [0, 1, 2]) := C06_ortho_axis_parallel _ _ _ _
+
+
+/-! ### bends stay outside node rectangles (horizontally), from the separation C04 proves -/
+
+open Phase4Simple in
+/-- in a separated layer the left edge of a later node is right of the right edge of every earlier node -/
+theorem separated_far (ns : Rat) (hns : 0 ≤ ns) : ∀ (xs ws : List Rat), xs.length = ws.length → Separated ns xs ws →
+    (∀ w ∈ ws, 0 ≤ w) → ∀ i j, i < j → j < xs.length → xs.getD i 0 + ws.getD i 0 + ns ≤ xs.getD j 0
+  | [], _, _, _, _, _, _, _, hj => by simp at hj
+  | [x], _, _, _, _, i, j, hij, hj => by simp at hj; omega
+  | x :: y :: xs, [], h, _, _, _, _, _, _ => by simp at h
+  | x :: y :: xs, w :: ws, hlen, hsep, hw, i, j, hij, hj => by
+    simp only [Separated] at hsep
+    have ih := separated_far ns hns (y :: xs) ws (by simpa using hlen) hsep.2 (fun v hv => hw v (List.mem_cons_of_mem _ hv))
+    match i, j, hij with
+    | 0, 1, _ => simpa using hsep.1
+    | 0, j + 2, _ =>
+      -- x + w + ns ≤ y ≤ y + w_y + ns ≤ x_{j+2}
+      have h1 := ih 0 (j + 1) (by omega) (by simpa using hj)
+      have hwy : 0 ≤ ws.getD 0 0 := by
+        cases ws with
+        | nil => simp at hlen
+        | cons v _ => simpa using hw v (by simp)
+      simp only [List.getD_cons_zero, List.getD_cons_succ] at h1 ⊢
+      have := hsep.1
+      grind
+    | i + 1, j + 1, hij' =>
+      simpa only [List.getD_cons_succ] using ih i j (by omega) (by simpa using hj)
+
+open Phase4Simple in
+/-- **C06 (bends and rectangles)**: in a layer whose nodes are separated (what C04 proves for the positioners) and have
+    non-negative widths, the centre x of a node — where the polyline and orthogonal routers put the bend of a helper node
+    (`C06_polyline_bends`) — is never strictly inside the horizontal extent of ANOTHER node of that layer -/
+theorem C06_bend_outside_rect (ns : Rat) (hns : 0 ≤ ns) (xs ws : List Rat) (hlen : xs.length = ws.length)
+    (hsep : Separated ns xs ws) (hw : ∀ w ∈ ws, 0 ≤ w) (i j : Nat) (hi : i < xs.length) (hj : j < xs.length) (hij : i ≠ j) :
+    ¬ (xs.getD j 0 < xs.getD i 0 + ws.getD i 0 / 2 ∧ xs.getD i 0 + ws.getD i 0 / 2 < xs.getD j 0 + ws.getD j 0) := by
+  have hwi : 0 ≤ ws.getD i 0 := by
+    have : i < ws.length := by omega
+    have h2 : ws.getD i 0 = ws[i] := by simp [List.getD_eq_getElem?_getD, this]
+    rw [h2]; exact hw _ (List.getElem_mem _)
+  have hhalf : 0 ≤ ws.getD i 0 / 2 ∧ ws.getD i 0 / 2 ≤ ws.getD i 0 := by
+    rw [Rat.div_def]; constructor <;> grind
+  rcases Nat.lt_or_gt_of_ne hij with h | h
+  · have := separated_far ns hns xs ws hlen hsep hw i j h hj
+    intro ⟨h1, _⟩; grind
+  · have := separated_far ns hns xs ws hlen hsep hw j i h hi
+    intro ⟨_, h2⟩; grind
+
+example : Phase4Simple.Separated 10 [0, 30, 40] [20, 0, 20] ∧ (∀ w ∈ ([20, 0, 20] : List Rat), 0 ≤ w) := by
+  refine ⟨by simp only [Phase4Simple.Separated]; decide +kernel, by decide +kernel⟩
 
 end Autog
